@@ -193,7 +193,7 @@ func runC18Child(rc *runCtx) error {
 		dg := env.digest()
 		changed := dg != prev
 		prev = dg
-		out.line("R\t%d\t%d\t%s\t%s", idx, status, cBool(panicked), cBool(changed))
+		out.line("R\t%d\t%d\t%s\t%s\t%s", idx, status, cBool(panicked), cBool(changed), cBool(env.oversized()))
 		rt := c18Route(x.Method, x.Path)
 		if rt.ep == "EpCreate" || len(x.Setup) > 0 {
 			env.cleanup()
